@@ -507,21 +507,25 @@ Lemma lit_ids : forall ops st obs c, In c (lit_clauses st ops obs) ->
 Proof.
   induction ops as [|op ops IH]; intros st obs c H; [destruct obs; destruct H|].
   destruct obs as [|o obs]; [destruct op; destruct H|].
-  destruct op as [hd cs|wc dst src port]; cbn [lit_clauses] in H.
+  destruct op as [hd cs|wc dst src port|wc dst src port]; cbn [lit_clauses] in H.
   - destruct o as [|ok [|? ?]]; eauto.
   - destruct o as [|kind [|x [|? ?]]]; eauto.
     destruct st as [ts|]; eauto.
     destruct H as [H|[H|H]]; [subst; left; reflexivity|subst; right; reflexivity|eauto].
+  - eauto.
 Qed.
 
 Lemma main_holds : forall ops st,
   forallb (fun c => snd c) (main_clauses true st ops (run_d st ops)) = true.
 Proof.
   induction ops as [|op ops IH]; intro st; [reflexivity|].
-  destruct op as [hd cs|wc dst src port]; cbn [run_d main_clauses].
+  destruct op as [hd cs|wc dst src port|wc dst src port]; cbn [run_d main_clauses].
   - destruct (validate hd cs) as [m|]; cbn; apply IH.
   - cbn [forallb snd]. rewrite IH, andb_true_r.
     generalize (look_word st wc dst src port). induction w as [|x w IHw]; cbn; [reflexivity|].
+    rewrite Z.eqb_refl. exact IHw.
+  - cbn [forallb snd]. rewrite IH, andb_true_r.
+    generalize (accept_word st wc dst src port). induction w as [|x w IHw]; cbn; [reflexivity|].
     rewrite Z.eqb_refl. exact IHw.
 Qed.
 
